@@ -98,6 +98,8 @@ theorem end_LRLR_b (t u v : ℝ) :
 
 /-! ## formula 8.7 -/
 
+/-- **formula 8.7 reaches the goal**: the word `L t · R u · L (−u) · R v` (type 2) returned by
+`LpRupLumRm x y φ` ends at `(x, y)` with heading `φ + 2πk` (the three `assert`s of `LpRupLumRm`). -/
 theorem LpRupLumRm_reaches (x y phi t u v : ℝ) (h : LpRupLumRm x y phi = some (t, u, v)) :
     Reaches (bCCCCa 2 false t u v) x y phi := by
   unfold LpRupLumRm at h
@@ -161,6 +163,8 @@ theorem LpRupLumRm_reaches (x y phi t u v : ℝ) (h : LpRupLumRm x y phi = some 
 
 /-! ## formula 8.8 -/
 
+/-- **formula 8.8 reaches the goal**: the word `L t · R u · L u · R v` (type 2) returned by
+`LpRumLumRp x y φ` ends at `(x, y)` with heading `φ + 2πk` (the three `assert`s of `LpRumLumRp`). -/
 theorem LpRumLumRp_reaches (x y phi t u v : ℝ) (h : LpRumLumRp x y phi = some (t, u, v)) :
     Reaches (bCCCCb 2 false t u v) x y phi := by
   unfold LpRumLumRp at h
@@ -192,7 +196,7 @@ theorem LpRumLumRp_reaches (x y phi t u v : ℝ) (h : LpRumLumRp x y phi = some 
     linarith [Real.cos_le_one U]
   rw [if_neg ht2] at hk1
   obtain ⟨hc1, hc2⟩ := tau_core xi eta (Real.sin U - 0) (Real.cos U - 1 - 1) (by
-    linear_combination (-4) * hsc + (-16) * hcu)
+    linear_combination (-4) * hsc + 16 * hcu)
   generalize Complex.arg ⟨xi * (Real.sin U - 0) + eta * (Real.cos U - 1 - 1),
     eta * (Real.sin U - 0) - xi * (Real.cos U - 1 - 1)⟩ = T at hk1 hc1 hc2
   have ev : t - v = phi + ((-k2 : ℤ) : ℝ) * (2 * Real.pi) := by
@@ -208,5 +212,22 @@ theorem LpRumLumRp_reaches (x y phi t u v : ℝ) (h : LpRumLumRp x y phi = some 
   · show 1 - 4 * Real.cos t + 2 * Real.cos (t - U) + Real.cos (t - v) = y
     rw [cos_shift ev, Real.cos_sub, hst, hct]
     linear_combination hc2 + heta
+
+/-! ## the eight images -/
+
+theorem bCCCCa_flip (ty : Nat) (t u v : ℝ) : bCCCCa ty true t u v = (bCCCCa ty false t u v).flip := by
+  simp [bCCCCa, sg, RSPath.flip]
+
+theorem bCCCCb_flip (ty : Nat) (t u v : ℝ) : bCCCCb ty true t u v = (bCCCCb ty false t u v).flip := by
+  simp [bCCCCb, sg, RSPath.flip]
+
+/-- every CCCC candidate reaches the goal: plain, timeflip, reflect, both, of formulas 8.7 and 8.8 -/
+theorem CCCC_candidates_reach (x y phi L : ℝ) (Q : RSPath ℝ) (h : some (L, Q) ∈ candsCCCC x y phi) :
+    Reaches Q x y phi := by
+  rcases List.mem_append.mp h with h | h
+  · exact reach_four LpRupLumRm key4 bCCCCa 2 3 LpRupLumRm_reaches (fun _ _ _ _ _ => rfl)
+      (fun _ _ _ _ _ _ => rfl) bCCCCa_flip rfl x y phi L Q h
+  · exact reach_four LpRumLumRp key4 bCCCCb 2 3 LpRumLumRp_reaches (fun _ _ _ _ _ => rfl)
+      (fun _ _ _ _ _ _ => rfl) bCCCCb_flip rfl x y phi L Q h
 
 end OmplModel.RS
